@@ -212,6 +212,7 @@ def r2b(repo, run):
     pp = tr.paths_of(repo, ps, no_inline=LNI, follow_exceptions=False)
     res = {}
     other = set()
+    shortcuts = []
     for style in (None, '"', "'", '|', '>'):
         feas = [p for p in pp if tr.feasible(p, {'node.style': style})[0]]
         if not feas:
@@ -227,6 +228,9 @@ def r2b(repo, run):
                 if style is not None:
                     res[style].discard((True, False))
                     res[style].add((False, True))
+                continue
+            if not rs and not co and not cs and p.status == 'return':
+                shortcuts.append((style, p))     # a result computed without PyYAML: decided by evaluation below
                 continue
             if len(rs) != 1 or len(rs[0].args) != 3:
                 raise AnalysisError('parse_scalar: loader.resolve(kind, value, implicit) not recognised')
@@ -265,6 +269,80 @@ def r2b(repo, run):
         run.violation('C01.R2b', ps, 'parse_scalar', o)
     if not other:
         run.ok('C01.R2b', ps, 'loader.construct_object(<tag-erased copy>, deep=True, convert=False)')
+    _parse_scalar_texts(repo, run, bool(shortcuts))
+
+
+SCALAR_TEXTS = ['0', '1', '128', '-5', '+7', '0755', '-017', '09', '08', '00', '0x1F', '0b101', '1_000', '1:30', '190:20:30', '1.5', '-0.0', '1e3', '1.0e+3', '.5', '5.', '.inf', '-.INF', '.nan',
+                'true', 'True', 'yes', 'No', 'on', 'off', 'null', '~', '', 'Null', 'abc', 'a b', '1a', '-', '+', '2001-01-01', '2001-12-14t21:59:43.10-05:00', '=', '<<', '0o17', '1__0', '0_7', '12345678901234567890']
+
+
+def _parse_scalar_texts(repo, run, required):
+    """parse_scalar evaluated on scalar texts x styles with the PyYAML loader as a recording stand-in: whenever the function answers
+    without handing the tag-erased scalar to PyYAML, its answer must be what PyYAML itself constructs for the untagged scalar (value and
+    type; PyYAML's own resolver and constructor, as installed, are the reference). Texts that an implicit resolver registered by the
+    package claims are not judged."""
+    import re as _re
+    import yaml as _yaml
+    ps = repo.func('yaml.parse_scalar')
+    own = []
+    for mod in repo.modules.values():
+        for c in calls_in(mod.tree):
+            if unparse(c.func) in ('add_implicit_resolver', 'yaml.add_implicit_resolver') and len(c.args) >= 2 and mod.relpath.endswith('yaml.py') and not isinstance(c.args[1], ast.Name) is False:
+                g = mod.globals.get(c.args[1].id) if isinstance(c.args[1], ast.Name) else None
+                if isinstance(g, ast.Call) and unparse(g.func) == 're.compile' and g.args and isinstance(g.args[0], ast.Constant):
+                    own.append(_re.compile(g.args[0].value))
+                elif c.args[1].id not in ('regex',):
+                    raise AnalysisError('implicit resolver %s: regular expression not found' % unparse(c)[:60])
+    bad = []
+    rows = direct = 0
+    for style in (None, '"', "'", '|'):
+        for text in SCALAR_TEXTS:
+            rows += 1
+            node = Obj('ynode', 'yaml.ScalarNode', value=text, style=style, tag='!tag', start_mark=None, end_mark=None)
+            asked = []
+
+            def stub(n, recv, a, k):
+                asked.append(n)
+                if n == 'resolve':
+                    return 'RESOLVED'
+                return ('PYYAML', n)
+            f = FDE(repo, stubs={'resolve', 'construct_object', 'construct_scalar'}, stub=stub, max_depth=6)
+            dc = lambda x, *a: Obj(x.name + '_copy', x.cls, **dict(x.f)) if isinstance(x, Obj) else x
+            f.extcalls = {'copy.deepcopy': dc, 'copy.copy': dc, 'deepcopy': dc}
+            f.externals = {'yaml.ScalarNode': _yaml.ScalarNode}
+            try:
+                r = f.call(ps, Obj('loader', 'AwesomeyamlLoader'), node)
+            except Exception as e:
+                if required or os.environ.get('AYLINT_DEBUG'):
+                    raise AnalysisError('parse_scalar answers some scalars without PyYAML and is not evaluable on %r (style %r): %s' % (text, style, e))
+                return
+            if r.raised:
+                bad.append('tagged scalar %r (style %r): parse_scalar raises %s' % (text, style, r.raised))
+                continue
+            if isinstance(r.ret, tuple) and r.ret and r.ret[0] == "PYYAML":
+                continue
+            if asked:
+                continue        # PyYAML was involved: judged by the path rule above
+            if any(x.match(text) for x in own) and style is None:
+                continue
+            direct += 1
+            ref = _yaml.SafeLoader('')
+            try:
+                tag = ref.resolve(_yaml.ScalarNode, text, (True, False) if style is None else (False, True))
+                want = ref.construct_object(_yaml.ScalarNode(tag, text, style=style), deep=True)
+            finally:
+                ref.dispose()
+            got = r.ret
+            if isinstance(got, (Obj,)) or (isinstance(got, tuple) and got and isinstance(got[0], str) and got[0] in ('class', 'ext')):
+                raise AnalysisError('parse_scalar: direct answer %r for %r not comparable' % (got, text))
+            same = type(got) is type(want) and (got == want or (got != got and want != want)) and repr(got) == repr(want)
+            if not same:
+                bad.append('`!tag %s` (style %r) is answered directly with %r (%s); the untagged scalar is constructed by PyYAML as %r (%s)' % (text, style, got, type(got).__name__, want, type(want).__name__))
+    run.table('C01.R2b', rows, 'parse_scalar on scalar texts x styles (%d answered without PyYAML)' % direct)
+    if bad:
+        run.violation('C01.R2b', ps, 'parse_scalar direct answers', '; '.join(bad[:3]) + (' (+%d more)' % (len(bad) - 3) if len(bad) > 3 else ''))
+    else:
+        run.ok('C01.R2b', ps, 'every scalar text is either handed to PyYAML or answered exactly as PyYAML would (%d rows, %d direct)' % (rows, direct))
 
 
 # ---- R3 type deduction --------------------------------------------------------------------------
@@ -561,6 +639,7 @@ def mutants(repo):
         Mutant('weak-tag-builds-list', lambda r: in_func(r, 'yaml._weak_constructor', "kwargs={ 'priority': ConfigNode.WEAK })", "kwargs={ 'priority': ConfigNode.WEAK }, parse_scalars=False)"), ['C01.R2']),
         Mutant('tagged-quoted-scalar-resolved-as-plain', lambda r: in_func(r, 'yaml.parse_scalar', "implicit = (True, False) if plain else (False, True)", "implicit = (True, False)"), ['C01.R2b']),
         Mutant('tagged-scalar-not-parsed', lambda r: in_func(r, 'yaml._make_node', "        if not parse_scalars:\n            data = loader.construct_scalar(node)\n        else:\n            data = parse_scalar(loader, node)", "        data = loader.construct_scalar(node)"), ['C01.R2b']),
+        Mutant('tagged-digits-answered-without-pyyaml', lambda r: in_func(r, 'yaml.parse_scalar', "    plain = (node.style is None)\n", "    plain = (node.style is None)\n    if plain and node.value.isdigit():\n        return int(node.value)\n"), ['C01.R2b']),
         Mutant('str-treated-as-sequence', lambda r: in_func(r, 'ConfigNodeMeta.__call__', "if isinstance(value, cabc.Sequence) and not isinstance(value, str) and not isinstance(value, bytes):", "if isinstance(value, cabc.Sequence) and not isinstance(value, bytes):"), ['C01.R3']),
         Mutant('mapping-before-sequence-lost', lambda r: in_func(r, 'ConfigNodeMeta.__call__', "elif isinstance(value, cabc.MutableMapping):", "elif isinstance(value, cabc.MutableSet):"), ['C01.R3']),
         Mutant('configbool-leaks', lambda r: in_func(r, 'ConfigScalar._get_value', "if self._dyn_base in [configbool, ConfigNone]:", "if self._dyn_base in [ConfigNone]:"), ['C01.R4']),
